@@ -68,7 +68,8 @@ func (self *Core) runInstruction(instruction compiler.Instruction) *value.VmInte
 		args := make([]value.Value, 0)
 		numArgs := (*self.pop()).(value.ValueInt).Inner
 		for i := 0; i < int(numArgs); i++ {
-			args = append([]value.Value{*self.pop()}, args...) // TODO: implement deepcopy here
+			// The new core must not share mutable values (lists, objects) with this one.
+			args = append([]value.Value{*(*self.pop()).Clone()}, args...)
 		}
 
 		// TODO: how to handle the debugger
